@@ -1,9 +1,9 @@
 SPECIFICATION Spec
 CONSTANTS MaxNum = 3
-  Vals = {"a"}
+  Vals = {"a", "b"}
   OBJSTM = FALSE
   SEEKABLE = FALSE
-  MaxOps = 4
+  MaxOps = 3
   Threshold = 2
   MaxMembers <- SmallMembers
 INVARIANTS RoundTrip UnwrittenNull OffsetsExact NoOverlap SizeCovers DeferredAfterStream ObjStmConsistent TrailerOK
